@@ -178,6 +178,8 @@ type AutoYieldCfg struct {
 	Salt uint64
 	Mod  int
 	Park Dur
+	// Budget: once the parks of a run add up to this much fake time, the run parks no more.
+	Budget Dur
 }
 
 // Scenario is everything that defines one run. It is drawn completely before
@@ -234,7 +236,7 @@ func (sc *Scenario) Describe() []string {
 		}
 	}
 	if a := sc.AutoYield; a != nil {
-		out = append(out, fmt.Sprintf("inserted yield points: site=%q salt=%d mod=%d park=%v", a.Site, a.Salt, a.Mod, a.Park))
+		out = append(out, fmt.Sprintf("inserted yield points: site=%q salt=%d mod=%d park=%v budget=%v", a.Site, a.Salt, a.Mod, a.Park, a.Budget))
 	}
 	for _, a := range sc.Admin {
 		out = append(out, fmt.Sprintf("admin: at=%v kind=%d timeout=%v", a.At, a.Kind, a.Timeout))
